@@ -52,6 +52,8 @@ fn weight() -> impl Strategy<Value = Option<u64>> {
         3 => prop::sample::select(special).prop_map(|x| Some(x.to_bits())),
         3 => any::<u64>().prop_map(|b| if f64::from_bits(b).is_nan() { Some(1.5f64.to_bits()) } else { Some(b) }),
         1 => (-1000i32..1000).prop_map(|k| Some((k as f64 / 8.0).to_bits())),
+        // neighbouring floats: a base value and the values one or two ulps away from it
+        2 => (prop::sample::select(vec![0.3f64, 1.0 / 3.0, 1.0, 1e16, 2.5, 0.1, 1e-7, 123456.789]), -2i64..=2).prop_map(|(b, k)| Some((b.to_bits() as i64 + k) as u64)),
     ]
 }
 
